@@ -1,6 +1,6 @@
 (* The static walk over [listen] for the order automaton, hence C06's order theorem for
    every environment, inbox and timing. *)
-From Passage Require Import Lib.Bytes Codec.VarInt Codec.Desc Gen.PacketsGen Gen.ConstsGen
+From Passage Require Import Lib.Bytes Codec.VarInt Codec.Desc Codec.NoPanic Gen.PacketsGen Gen.ConstsGen
   Codec.PacketCheck Crypto.Cookie Conn.Types Conn.Prog Conn.Sem1 Conn.Monitor Conn.MonitorProofs Conn.Order.
 
 Global Opaque dec verify sign.
@@ -9,19 +9,26 @@ Ltac solve_ka :=
   unfold ka_inv; split; [|split];
   [ let e := fresh "e" in let He := fresh "He" in
     intros e He; unfold step_with, internal_at; cbn [q Z.eqb Pos.eqb andb orb]; rewrite He; reflexivity
-  | let o := fresh "o" in let Ho := fresh "Ho" in
-    intros o Ho; destruct o as [|?|]; [congruence| |]; cbn; discriminate
+  | let o := fresh "o" in let Ho := fresh "Ho" in let Hp := fresh "Hp" in
+    intros o Ho Hp; destruct o as [|?k|]; [congruence | destruct k; cbn; first [discriminate | congruence] | cbn; discriminate]
   | let r := fresh "r" in intros r; destruct r; cbn; discriminate ].
 
 Ltac solve_errs :=
-  let o := fresh "o" in let Ho := fresh "Ho" in
-  intros o Ho; destruct o as [|?|]; [congruence| |]; cbn; discriminate.
+  let o := fresh "o" in let Ho := fresh "Ho" in let Hp := fresh "Hp" in
+  intros o Ho Hp; destruct o as [|?k|]; [congruence | destruct k; cbn; first [discriminate | congruence] | cbn; discriminate].
 
 (* one round: simplify; split on undecided integer comparisons and decodes first (so that
    the monitor state stays concrete); then take the goal apart *)
+Ltac no_panic :=
+  match goal with
+  | H : dec _ _ _ _ = Er EPanic |- _ => exfalso; exact (dec_no_panic _ _ _ _ H)
+  end.
+
 Ltac walk_step :=
   first
-  [ progress cbn
+  [ no_panic
+  | progress cbn
+  | match goal with |- context [err_kind ?e] => is_var e; destruct e end
   | match goal with |- context [if (?a =? ?b) then _ else _] => destruct (a =? b) eqn:? end
   | match goal with |- context [match dec ?a ?b ?c ?d with _ => _ end] => destruct (dec a b c d) eqn:? end
   | match goal with
